@@ -72,6 +72,18 @@ CT_DECOS = [
     ("b_nested_impl", "body", "struct L; impl L { fn n(&self, #[allow(unused)] q: u32) -> u32 { 2 } } let _ = L.n(x);"),
     ("b_macro", "body", "let _v = vec![1u8, 2]; let _s = format!(\"{}{}\", y, \"#[sv::msg(exec)]\");"),
     ("b_attr_stmt", "body", "#[allow(unused_variables)] let unused_local = 1;"),
+    # a forwarded attribute written above the kind annotation
+    ("m_sv_attr_b", "m_before", "#[sv::attr(serde(alias = \"foo_b\"))]"),
+    # foreign two-segment attributes whose last segment is spelled like one of the framework's
+    ("m_foreign_msg", "m_before", "#[acl::msg(exec)]"),
+    ("m_foreign_attr", "m_after", "#[i18n::attr(serde(rename = \"no\"))]"),
+    ("item_foreign_custom", "item", "#[acl::custom(msg = Nope)]"),
+    ("item_foreign_error", "item", "#[other::error(Nope)]"),
+    ("h_foreign_msg", "helper", "#[clippy::msg(query)]\nfn helper_f(&self, n: u32) -> u32 { n }"),
+    # binding modes are part of the signature as written
+    ("p_mut", "p_attr", "mut "),
+    ("ctx_mut", "ctx_attr", "mut "),
+    ("qp_mut", "qp_attr", "mut "),
 ]
 
 IF_TEMPLATE = """{item}
@@ -121,6 +133,10 @@ IF_DECOS = [
     ("a_type", "assoc", "type Extra: Clone;"),
     ("a_type_doc", "assoc", "/// assoc doc\ntype Param: std::fmt::Debug;"),
     ("supers", "supers", ": Sized"),
+    ("m_sv_attr_b", "m_before", "#[sv::attr(serde(alias = \"foo_b\"))]"),
+    ("m_foreign_msg", "m_before", "#[acl::msg(exec)]"),
+    ("item_foreign_custom", "item", "#[acl::custom(msg = Nope)]"),
+    ("h_foreign_msg", "helper", "#[clippy::msg(query)]\nfn helper_f(&self, n: u32) -> u32 { n }"),
 ]
 
 
